@@ -15,4 +15,5 @@ Extraction "writer_model.ml"
   produce_error make_time_ms code_err reaction_of_code
   cfg_of_options eff_batchSize eff_batchBytes eff_maxAttempts eff_batchTimeoutMs eff_backoffMinMs
   eff_backoffMaxMs eff_readTimeoutMs eff_writeTimeoutMs
+  produce_deadline_ms metadata_deadline_ms timed_reaction deadline_err
   Z.of_N.  (* Z.of_N also so that the shared ocaml/kvio.ml.in finds the type z *)
